@@ -52,6 +52,7 @@ class Ctx:
         self.angvals = {}        # numeric angle atom name -> (s SReal, c SReal)
         self.sign = {}           # atom name -> 'pos' | 'nonneg'
         self.no_fork = False
+        self.radicand_of = {}    # polynomial -> name of its sqrt atom
         self.decided = {}        # canonical comparison -> truth value decided on this path
         self.const_atoms = {'pi': _math.pi}   # atoms that denote a fixed real number -> its float value
         self.bounds = {}         # atom -> (lo, hi) Fractions or None
@@ -803,8 +804,19 @@ def poly_interval(p, depth=0):
                         rl, _rh = poly_interval(rest, depth + 1)
                         if rl is not None and (lo is None or rl + k * ql > lo):
                             lo = rl + k * ql
-    # assumptions about a whole polynomial (P >= c recorded by assume)
+    # p is the radicand of a sqrt atom r: p = r^2, so the bounds of r carry over
     q, c0 = _split_const(p)
+    if q.t and c.radicand_of:
+        kq = q.t[min(q.t)]
+        hit = c.radicand_of.get(q.scale(1 / kq))
+        if hit is not None and hit[0] in c.bounds and kq / hit[1] > 0:
+            f = kq / hit[1]                                     # p = f * (r^2 - c_rad) + c0
+            bl, bh = c.bounds[hit[0]]
+            if bl is not None and (lo is None or f * (bl * bl - hit[2]) + c0 > lo):
+                lo = f * (bl * bl - hit[2]) + c0
+            if bh is not None and (hi is None or f * (bh * bh - hit[2]) + c0 < hi):
+                hi = f * (bh * bh - hit[2]) + c0
+    # assumptions about a whole polynomial (P >= c recorded by assume)
     pl = c.poly_lower.get(q)
     if pl is not None and (lo is None or pl + c0 > lo):
         lo = pl + c0
@@ -1162,6 +1174,12 @@ def _sqrt_basic(x):
         CTX.atoms[key] = nm
         CTX.defs[nm] = ('sqrt', x)
         CTX.sign[nm] = 'nonneg' if not x.is_const() else 'pos'
+        if x.d.is_const() and not x.is_const():
+            pr = x.n.scale(1 / x.d.const_val())
+            q_, _c = _split_const(pr)
+            if q_.t:
+                k0 = q_.t[min(q_.t)]
+                CTX.radicand_of[q_.scale(1 / k0)] = (nm, k0, _c)    # radicand = k0 * key + _c
         cv = const_value(x)
         if cv is not None and cv >= 0:
             CTX.const_atoms[nm] = _math.sqrt(cv)
